@@ -6,10 +6,10 @@
    * a pattern is a list of Unicode scalar values (`str`); `char::is_alphabetic`
      and `char::is_alphanumeric` are the parameters `alpha`, `alnum`
      (`to_digit(10)` is exact: ASCII '0'..'9' only);
-   * chrono: `strftime_ok fmt` = "StrftimeItems::new(fmt) yields no Item::Error",
-     `time_str fmt zone` = the rendering of now() in that zone, or None when
-     chrono's Display impl returns fmt::Error for that format (then
-     `write!(w, "{}", ..)` panics);
+   * chrono: `strftime_ok fmt` = the validation done when the pattern is
+     compiled: "StrftimeItems::new(fmt) yields no Item::Error AND rendering
+     Utc::now().format(fmt) into a String succeeds" (`%#z` parses but cannot
+     be rendered); `time_str fmt zone` = the rendering of now() in that zone;
    * runtime values (pid, thread ids, thread name, MDC map, build profile) are
      fields of `env`;
    * the width writers (MaxWidthWriter / LeftAlignWriter / RightAlignWriter)
@@ -515,7 +515,7 @@ Definition apply_params (p : params) (l : list item) : list item :=
 
 Section Encode.
   Variable strftime_ok : str -> bool.
-  Variable time_str : str -> tz -> option str.
+  Variable time_str : str -> tz -> str.
   Variable e : env.
 
   Definition q3 : str := (LIT "???").
@@ -526,9 +526,7 @@ Section Encode.
     | KTime fmt z =>
       (* write!(w, "{}", now.format(fmt)) panics when an item is invalid or
          cannot be formatted *)
-      if strftime_ok fmt
-      then match time_str fmt z with Some t => chars t | None => [Boom] end
-      else [Boom]
+      if strftime_ok fmt then chars (time_str fmt z) else [Boom]
     | KLevel => chars (level_str (e_level e))
     | KMessage => chars (e_msg e)
     | KModule => chars (opt_or (e_module e) q3)
